@@ -105,16 +105,19 @@ impl Tree {
             match choice {
                 0 => {
                     // literal include, same directory
-                    let child = join(&dir, &format!("p{:02}.ledger", n));
-                    self.feature("literal-same-dir");
+                    // (a file whose name starts with a dot can be included by naming it)
+                    let dot = rng.chance(1, 5);
+                    let child = join(&dir, &format!("{}p{:02}.ledger", if dot { "." } else { "" }, n));
+                    self.feature(if dot { "literal-dot-file" } else { "literal-same-dir" });
                     self.append(file, &format!("include {}\n\n", relative(file, &child)));
                     self.build(rng, entries, i, i + k, &child, depth + 1, in_glob_dir);
                 }
                 1 => {
                     // literal include into a sub-directory (name with a space now and then)
                     let sub = if rng.chance(1, 4) { format!("d {:02}", n) } else { format!("d{:02}", n) };
-                    let child = join(&join(&dir, &sub), &format!("p{:02}.ledger", n));
-                    self.feature("literal-sub-dir");
+                    let dot = rng.chance(1, 6);
+                    let child = join(&join(&dir, &sub), &format!("{}p{:02}.ledger", if dot { "." } else { "" }, n));
+                    self.feature(if dot { "literal-dot-file-in-sub-dir" } else { "literal-sub-dir" });
                     self.append(file, &format!("include {}\n\n", relative(file, &child)));
                     self.build(rng, entries, i, i + k, &child, depth + 1, in_glob_dir);
                 }
@@ -181,6 +184,14 @@ impl Tree {
                         if pattern_kind == 1 {
                             self.files.insert(join(&gdir, "axxb.ledger"), DECOY_TEXT.to_string());
                         }
+                        // names that match only when letter case is ignored
+                        for name in match pattern_kind {
+                            0 => ["00.LEDGER", "zz.Ledger"],
+                            1 => ["AcB.ledger", "azb.LEDGER"],
+                            _ => ["PART-A.ledger", "part-B.Ledger"],
+                        } {
+                            self.files.insert(join(&gdir, name), DECOY_TEXT.to_string());
+                        }
                     }
                     self.append(file, &format!("include {}\n\n", relative(file, &join(&gdir, &pat))));
                 }
@@ -201,6 +212,7 @@ impl Tree {
                         self.feature("decoys");
                         self.files.insert(join(&join(&gdir, ".2020"), "01.ledger"), DECOY_TEXT.to_string());
                         self.files.insert(join(&gdir, "00.ledger"), DECOY_TEXT.to_string());
+                        self.files.insert(join(&join(&gdir, "2021"), "99.LEDGER"), DECOY_TEXT.to_string());
                     }
                     let pat = if rng.chance(1, 2) { "*/*.ledger" } else { "20??/*.ledger" };
                     self.append(file, &format!("include {}\n\n", relative(file, &join(&gdir, pat))));
